@@ -192,6 +192,8 @@ class OPEnv(RL4COEnvBase):
         ).all(), "Duplicates"
 
         # Gather locations in order of tour and get the length of tours
+        # (the tour starts and ends at the depot, whether or not the actions list it)
+        actions = torch.cat((torch.zeros_like(actions[:, :1]), actions), 1)
         locs_ordered = gather_by_index(td["locs"], actions)
         length = get_tour_length(locs_ordered)
 
